@@ -52,13 +52,18 @@ func refValue(p RefPredicate, log *types.Log) ([]byte, bool) {
 	}
 	w := p.Offset - 4
 	if w > 1<<40 {
+		// no log has such a word (and w*32 must not be computed in 64 bits)
+		if !p.Dynamic {
+			return absentWord, true
+		}
 		return nil, false
 	}
 	start := w * 32
 	if !p.Dynamic {
-		// a word that is at least partly present is zero padded on the right (documented)
+		// a word that is at least partly present is zero padded on the right (documented); a word
+		// that is entirely beyond the data is either the zero word or no value at all
 		if start >= uint64(len(log.Data)) {
-			return nil, false
+			return absentWord, true
 		}
 		v := make([]byte, 32)
 		copy(v, log.Data[start:])
@@ -99,26 +104,42 @@ func Match(d RefDefinition, log *types.Log) (bool, bool) {
 			return false, false
 		}
 		var m bool
-		if p.Op == 5 {
-			m = bytes.Equal(v, p.Bytes)
-		} else {
-			c := new(big.Int).SetBytes(v).Cmp(p.Int)
-			switch p.Op {
-			case 0:
-				m = c < 0
-			case 1:
-				m = c <= 0
-			case 2:
-				m = c == 0
-			case 3:
-				m = c > 0
-			case 4:
-				m = c >= 0
+		if len(v) == 33 && &v[0] == &absentWord[0] {
+			// the documented reading (32 zero bytes) and the reading "no value" must agree, else the
+			// log is not well formed for this definition
+			m = evalPredicate(p, make([]byte, 32))
+			if m != evalPredicate(p, nil) {
+				return false, false
 			}
+		} else {
+			m = evalPredicate(p, v)
 		}
 		res = res && m
 	}
 	return res, true
+}
+
+// absentWord marks a static data word that lies entirely beyond the log data.
+var absentWord = make([]byte, 33)
+
+func evalPredicate(p RefPredicate, v []byte) bool {
+	if p.Op == 5 {
+		return bytes.Equal(v, p.Bytes)
+	}
+	c := new(big.Int).SetBytes(v).Cmp(p.Int)
+	switch p.Op {
+	case 0:
+		return c < 0
+	case 1:
+		return c <= 0
+	case 2:
+		return c == 0
+	case 3:
+		return c > 0
+	case 4:
+		return c >= 0
+	}
+	return false
 }
 
 // FilterPass re-implements go-ethereum's log filter semantics (eth/filters includes/filterLogs):
